@@ -146,6 +146,91 @@ def rule_layout(P):
     return R
 
 
+def rule_threshold_first(P):
+    """the grid managers classify holes as 'large' against the largest request seen so far; when a larger request arrives the threshold is raised and the
+    large holes are re-inserted.  The raise must come first: every call that (transitively) reads the threshold inside the `request > threshold` block
+    is preceded by the store, otherwise holes smaller than the new request stay in the large list and are handed out unchecked"""
+    import json as _json
+    R = RuleResult("storage.threshold-before-reinsert", "in a memory manager's requestChunk, inside the block guarded by `request > M` that stores the request into member M, the store precedes every call that reads M (directly or through callees)")
+    reads_memo = {}
+
+    def reads(q, member, depth=0):
+        key = (q, member)
+        if key in reads_memo:
+            return reads_memo[key]
+        reads_memo[key] = False
+        out = False
+        for cf in P.by_q.get(q, []):
+            if not cf.get("cfg"):
+                continue
+            if re.search(r"(?<!\w)%s(?!\w)" % re.escape(member), _json.dumps(cf["cfg"])):
+                out = True
+                break
+            if depth < 3:
+                for b in cf["cfg"]["blocks"]:
+                    for e in b["ev"]:
+                        if e["k"] == "call" and e["q"].startswith(M) and reads(e["q"], member, depth + 1):
+                            out = True
+                            break
+                    if out:
+                        break
+            if out:
+                break
+        reads_memo[key] = out
+        return out
+    n = 0
+    seen = set()
+    for f in sorted(P.fns.values(), key=lambda f: (f["file"], f["line"], f["inst"])):
+        if not f.get("cfg") or not f["file"].startswith("memory_managers/") or not f["q"].endswith("::requestChunk"):
+            continue
+        if (f["file"], f["line"]) in seen:
+            continue
+        seen.add((f["file"], f["line"]))
+        g = Graph(f)
+        for b in g.nodes:
+            if b.kind != "branch" or not b.cond or len(b.succ) != 2 or b.cond.get("op") not in (">", "<"):
+                continue
+            l, r = b.cond.get("l") or {}, b.cond.get("r") or {}
+            mem = [x for x in (l, r) if x.get("text", "").startswith("this->")]
+            par = [x for x in (l, r) if not x.get("text", "").startswith("this->")]
+            if len(mem) != 1 or len(par) != 1 or not mem[0].get("refs"):
+                continue
+            member = mem[0]["refs"][0]
+            stores = [k for k in g.nodes if k.kind == "store" and k.ev["member"].split("::")[-1] == member and re.sub(r"\s+", "", k.ev.get("rhs", "")) == re.sub(r"\s+", "", par[0]["text"])]
+            if par[0]["text"] not in [x["name"] for x in f.get("params", [])]:
+                continue
+            ti = 1 if b.cond.get("neg") else 0
+            arm = g.reach([s_ for s_, i in b.succ if i == ti]) - g.reach([s_ for s_, i in b.succ if i != ti])
+            stores = [k for k in stores if k.id in arm]
+            readers = [k for k in g.nodes if k.id in arm and k.kind == "call" and k.ev["q"].startswith(M) and reads(k.ev["q"], member)]
+            if not stores and not readers:
+                continue
+            n += 1
+            R.functions.add(f["inst"])
+            if not stores:
+                R.paths += 1
+                R.fail("%s: `%s` raised inside the `%s` block" % (base_name(f["q"]).replace(M, "")[:50], member, b.cond["text"]), where(f, b.line),
+                       Finding(R.rule, f["file"], base_name(f["q"]), "never-raised:" + member, "the block guarded by `%s` re-classifies holes through %s but never stores the request into `%s`: the threshold stays behind the largest request" % (
+                           b.cond["text"], sorted({k.ev["q"].split("::")[-1] for k in readers}), member), b.line, inst=f["inst"]))
+                continue
+            for k in readers:
+                R.paths += 1
+                iid = "%s: `%s = %s` precedes %s" % (base_name(f["q"]).replace(M, "")[:50], member, par[0]["text"], k.ev["q"].split("::")[-1])
+                first = [s_ for s_, i in b.succ if i == ti][0]
+                sids = {st.id for st in stores}
+                if first in sids or (first != k.id and g.path(first, lambda x, k=k: x.id == k.id, avoid=lambda x: x.id in sids) is None):
+                    R.ok(iid, where(f, k.line))
+                else:
+                    R.fail(iid, where(f, k.line), Finding(R.rule, f["file"], base_name(f["q"]), "stale:%s@%s" % (member, k.ev["q"].split("::")[-1]),
+                           "%s reads `%s` while it still holds the old value: holes are re-classified against the previous largest request and holes smaller than this request stay in the large list, from which requestChunk serves without a size check" % (k.ev["q"].split("::")[-1], member), k.line, inst=f["inst"]))
+            if not readers:
+                R.ok("%s: `%s` raised; no reader of it in the block" % (base_name(f["q"]).replace(M, "")[:50], member), where(f, b.line))
+    if n < 2:
+        raise AnalysisBroken("storage.threshold-before-reinsert: expected the two grid managers' requestChunk with a `request > max_request` block, found %d" % n)
+    R.require_floor(2, "threshold raises")
+    return R
+
+
 def rule_chunkptr(P):
     """memory.h: a pointer from getChunkAddress is valid only until the next requestChunk of the same manager"""
     R = RuleResult("chunkptr", "in storage/simple.cc and storage/ct_styles.cc a local pointer obtained from getChunkAddress is not used after a call that can reach requestChunk (the array-based memory managers may move their storage)")
@@ -217,4 +302,4 @@ def rule_chunkptr(P):
     return R
 
 
-RULES = [rule_layout, rule_chunkptr]
+RULES = [rule_threshold_first, rule_layout, rule_chunkptr]
